@@ -227,6 +227,16 @@ pub fn exec_case<S: Sch>(case: &Case, out: &mut String, with_acc: bool) {
                             for c in calls.split(';') {
                                 let f: Vec<&str> = c.split(':').collect();
                                 match f[0] {
+                                    "build" => {
+                                        // an earlier build on the same builder; its outcome is dropped
+                                        let i: usize = f[1].parse().unwrap_or(0);
+                                        if let Some(k) = keys.get(i) {
+                                            k.fail.store(f[2] == "1", Ordering::SeqCst);
+                                            let _ = b.build(k);
+                                            k.fail.store(false, Ordering::SeqCst);
+                                            let _ = k.take_log();
+                                        }
+                                    }
                                     "seq" => {
                                         b.seq(f[1].parse().unwrap());
                                     }
